@@ -99,6 +99,9 @@ pub struct Case {
     /// the document ends with a nested, namespaced (pass-through) <svg> element - which is not a root
     #[serde(default)]
     pub nested_ns: bool,
+    /// classes on the root <svg> element itself
+    #[serde(default)]
+    pub root_classes: Vec<String>,
 }
 
 fn el_xml(i: usize, e: &El) -> XEl {
@@ -144,7 +147,8 @@ pub fn case_xml(c: &Case) -> String {
         kids.push(X::El(XEl::new("g").kid(XEl::new("svg").a("xmlns", "http://www.w3.org/2000/svg").a("x", "0").a("y", "40").a("width", "4").a("height", "4").kid(XEl::new("circle").a("cx", "2").a("cy", "2").a("r", "2")))));
     }
     if c.rooted {
-        XEl { name: "svg".into(), attrs: vec![], kids }.to_xml()
+        let attrs = if c.root_classes.is_empty() { vec![] } else { vec![("class".to_string(), c.root_classes.join(" "))] };
+        XEl { name: "svg".into(), attrs, kids }.to_xml()
     } else {
         kids.iter().map(|k| match k { X::El(e) => e.to_xml(), _ => String::new() }).collect::<Vec<_>>().join("\n")
     }
@@ -164,8 +168,8 @@ fn class_strategy() -> BoxedStrategy<String> {
 }
 
 fn fam_subsets(_t: Tier) -> BoxedStrategy<Case> {
-    (vec((0u8..10, vec(class_strategy(), 0..5)), 1..9), 0..6usize, prop_oneof![3 => Just("default".to_string()), 1 => Just("lightgrey".to_string()), 1 => Just("none".to_string())], prop_oneof![3 => Just("sans-serif".to_string()), 1 => Just("Ubuntu Mono".to_string())], prop::bool::weighted(0.15), prop::bool::weighted(0.9), prop::bool::weighted(0.9), prop::bool::weighted(0.3), prop::bool::weighted(0.15), prop::bool::weighted(0.3))
-        .prop_map(|(els, th, background, font_family, local, auto, rooted, author, debug, nested_ns)| Case { els: els.into_iter().map(|(kind, classes)| El { kind, classes }).collect(), theme: THEMES[th].to_string(), background, font_family, local, auto, rooted, author, debug, nested_ns })
+    (vec((0u8..10, vec(class_strategy(), 0..5)), 1..9), 0..6usize, prop_oneof![3 => Just("default".to_string()), 1 => Just("lightgrey".to_string()), 1 => Just("none".to_string())], prop_oneof![3 => Just("sans-serif".to_string()), 1 => Just("Ubuntu Mono".to_string())], prop::bool::weighted(0.15), prop::bool::weighted(0.9), prop::bool::weighted(0.9), prop::bool::weighted(0.3), prop::bool::weighted(0.15), prop::bool::weighted(0.3), prop_oneof![3 => Just(vec![]), 1 => vec(class_strategy(), 1..3)])
+        .prop_map(|(els, th, background, font_family, local, auto, rooted, author, debug, nested_ns, root_classes)| Case { els: els.into_iter().map(|(kind, classes)| El { kind, classes }).collect(), theme: THEMES[th].to_string(), background, font_family, local, auto, rooted, author, debug, nested_ns, root_classes })
         .boxed()
 }
 
@@ -182,10 +186,10 @@ fn singletons() -> Vec<Case> {
         for th in THEMES {
             // every class on a rect with text, on a line and on a text element
             let els = vec![El { kind: 0, classes: vec![c.clone()] }, El { kind: 2, classes: vec![c.clone()] }, El { kind: 3, classes: vec![c.clone()] }];
-            v.push(Case { els, theme: th.to_string(), background: "default".into(), font_family: "sans-serif".into(), local: false, auto: true, rooted: true, author: k % 7 == 0, debug: false, nested_ns: k % 5 == 0 });
+            v.push(Case { els, theme: th.to_string(), background: "default".into(), font_family: "sans-serif".into(), local: false, auto: true, rooted: true, author: k % 7 == 0, debug: false, nested_ns: k % 5 == 0, root_classes: vec![] });
         }
         // and once on a shape without any text element in the document
-        v.push(Case { els: vec![El { kind: 1, classes: vec![c.clone()] }], theme: "default".into(), background: "default".into(), font_family: "sans-serif".into(), local: false, auto: true, rooted: true, author: false, debug: false, nested_ns: false });
+        v.push(Case { els: vec![El { kind: 1, classes: vec![c.clone()] }], theme: "default".into(), background: "default".into(), font_family: "sans-serif".into(), local: false, auto: true, rooted: true, author: false, debug: false, nested_ns: false, root_classes: vec![] });
     }
     v
 }
